@@ -303,3 +303,31 @@ package jid
 //@   ensures[C11] result1 == nil ==> 1 <= result0.domainlen && result0.domainlen <= 1023 && result0.locallen == j.locallen && len(result0.data) - result0.locallen - result0.domainlen == len(j.data) - j.locallen - j.domainlen
 //@   ensures[C11] result1 == nil ==> forall k int :: 0 <= k && k < j.locallen ==> result0.data[k] == j.data[k]
 //@   ensures[C11] result1 == nil ==> forall k int :: 0 <= k && k < len(j.data) - j.locallen - j.domainlen ==> result0.data[result0.locallen+result0.domainlen+k] == j.data[j.locallen+j.domainlen+k]
+
+// C16: the exported Transformer only forwards: Transform and Span hand exactly
+// their arguments to the wrapped mapping and return its results; Bytes and
+// String run the x/text drivers over this very transformer and the given input.
+//@ func (Transformer).Transform
+//@   ghost r0 int
+//@   ghost r1 int
+//@   ghost r2 error
+//@   callsite (golang.org/x/text/transform.SpanningTransformer).Transform#1
+//@     assert[C16] arg0 == t.t && same(arg1, dst) && same(arg2, src) && arg3 == atEOF
+//@     after: r0 = ret0
+//@     after: r1 = ret1
+//@     after: r2 = ret2
+//@   ensures[C16] nDst == r0 && nSrc == r1 && err == r2
+//@ func (Transformer).Span
+//@   ghost r0 int
+//@   ghost r1 error
+//@   callsite (golang.org/x/text/transform.SpanningTransformer).Span#1
+//@     assert[C16] arg0 == t.t && same(arg1, src) && arg2 == atEOF
+//@     after: r0 = ret0
+//@     after: r1 = ret1
+//@   ensures[C16] n == r0 && err == r1
+//@ func (Transformer).Bytes
+//@   callsite golang.org/x/text/transform.Bytes#1
+//@     assert[C16] typeof(arg0) == Transformer && arg0.(Transformer) == t && same(arg1, b)
+//@ func (Transformer).String
+//@   callsite golang.org/x/text/transform.String#1
+//@     assert[C16] typeof(arg0) == Transformer && arg0.(Transformer) == t && arg1 == s
